@@ -88,7 +88,7 @@ func (s *Sim) mutateConf() *ConfSpec {
 		qs := c.allQueues()
 		path := pick(r, qs)
 		q := c.Find(path)
-		switch r.Intn(12) {
+		switch r.Intn(14) {
 		case 0, 1: // change the maximum
 			if path == "root" {
 				continue
@@ -192,6 +192,29 @@ func (s *Sim) mutateConf() *ConfSpec {
 					}
 				}
 			}
+		case 12: // a parent is redefined as a leaf: all its children leave the configuration
+			if path == "root" || q.IsLeaf() {
+				continue
+			}
+			for _, ch := range q.Children {
+				if ch.IsLeaf() {
+					s.graveyard[path+"."+ch.Name] = ch.clone()
+				}
+			}
+			q.Children = nil
+			q.Parent = false
+			s.probe("reload_parent_to_leaf")
+		case 13: // a leaf is redefined as a parent
+			if path == "root" || !q.IsLeaf() {
+				continue
+			}
+			nq := &QSpec{Name: pick(r, []string{"n1", "n2", "a"})}
+			if q.MaxApps != 0 {
+				nq.MaxApps = uint64(r.Range(1, int(q.MaxApps)))
+			}
+			q.Children = append(q.Children, nq)
+			q.Guar = nil
+			s.probe("reload_leaf_to_parent")
 		case 11: // partition level settings
 			switch r.Intn(3) {
 			case 0:
